@@ -91,6 +91,7 @@ Record cfg := {
   c_runahead : nat;         (* runahead limit Pn *)
   c_qlimits : list nat;     (* per queue; 0 = unlimited *)
   c_icp : Z; c_fcp : Z;
+  c_start : Z;              (* start cycle point (= c_icp for a cold start) *)
 }.
 
 Fixpoint find_inst (l : list inst) (t : tid) : option inst :=
@@ -421,6 +422,7 @@ Definition step (c : cfg) (s : mstate) (e : event) : res :=
           else if existsb (fun p => tid_eqb (p_id p) t) (pool s) then Err 103   (* already pooled (C26) *)
           else if negb (subset_keys sat0 (expected_sat0 s i)) then Err 104      (* initially satisfied only by completed absolute outputs *)
           else if negb (Bool.eqb held (hold_expected s t)) then Err 105         (* future holds take effect on spawn (C06) *)
+          else if Z.ltb (fst t) (c_start c) then Err 106                         (* nothing before the start point (C46) *)
           else let s1 := if held then add_hold s t else s in
                Ok (with_limbo s1 (new_task t flows sat0 held :: remove_task (limbo s) t))
       end
